@@ -21,6 +21,7 @@ import twisted.python.failure
 
 import dawgie.context
 import dawgie.fe.api
+import dawgie.fe.api.submit
 import dawgie.fe.submit
 import dawgie.pl.state as state
 
@@ -131,7 +132,8 @@ def do_event(sy, e, o):
     elif ev == 'SubmitBegin':
         if lw.process is not None:
             return False
-        proc = dawgie.fe.submit.Process('changeset-x', lambda: None, Request(), PVAL[e['p']])
+        impl = dawgie.fe.api.submit if sy.job_id % 2 else dawgie.fe.submit
+        proc = impl.Process('changeset-x', lambda: None, Request(), PVAL[e['p']])
         r = proc.step_1(None)
         if isinstance(r, twisted.python.failure.Failure):
             o['refused'] = True
@@ -234,6 +236,7 @@ def drain(sy, steps):
 
 def run_job(job):
     sy = System()
+    sy.job_id = int(job['id'])
     steps = []
     skipped = 0
     try:
